@@ -41,3 +41,19 @@ Definition authority_nsec3 (rcode : N) (cd : bool) (qe : rname) (qtype qclass : 
       (E_ok, negb cd && secure, negb cd && secure, negb cd && eligible)
   | (e, _) => (e, false, false, false)
   end.
+
+(* ---- the signature layer in front of the NSEC branch (session 4): findRRSIGSigners / verifyDNSSEC /
+   dnssec.VerifyRRSIG as Resolver.authority uses them.  Every record of the authority section comes with
+   one bit: its RRset carries an RRSIG that verifies under the validated signer zone's DNSKEY (true), or
+   it does not — unsigned, or signed by another zone's key such as a child zone's record replayed into
+   the answer (false).  VerifyRRSIG collects every RRset whose OWNER lies in the signer zone and refuses
+   the whole response when one of them has no verifying signature; RRsets owned outside the zone are
+   skipped there and dropped afterwards by FilterRRsToZone.  CD=1 skips validation altogether.
+   (The cryptography itself — that only the zone's key holder can produce a verifying RRSIG — is the
+   hypothesis of the theorem, not part of the model.) *)
+Definition authority_nsec_signed (rcode : N) (cd : bool) (qe : rname) (qtype qclass : N) (signer : rname)
+  (recs : list (cnsec * bool)) : auth_out :=
+  if cd then (E_ok, false, false, false) else
+  if existsb (fun rs => prefix_b signer (c_owner (fst rs)) && negb (snd rs)) recs
+  then (E_other, false, false, false)
+  else authority_nsec rcode cd qe qtype qclass signer (filter_to_zone signer (map fst recs)).
